@@ -14,6 +14,9 @@ Parts (every block is explored completely):
  ordered  per class: all sibling orders (mc.enum.forests_n) of the forests with <= No nodes that part "tree" holds
           in sorted order only.
  pair     per class, shipped rulebook: pairs (t, u) of forests; old = t+implicit(t), new = u+implicit(u).
+ gen      per class: the real annet.gen._old_new_per_device (add_implicit, --acl-safe, config="running") on a device text t
+          and two generators - one without a safe ACL producing u1, one with a safe ACL producing u2 (all ACLs catch-all);
+          the result's old / new / safe_new / safe_old must each be the reference completion of t / u1+u2 / u2 / t.
 
 Clauses on one tree t (m as above):
  1 explicit-kept       t is a subtree of m (every explicit row, nesting intact); inputs are not mutated
@@ -69,7 +72,11 @@ ASSUMPTIONS = [
     "(JUDGE_CONTEXT_DEPENDENT turns these into violations) - clause 5 still judges those places",
     "part pair explores configurations shaped as the rule text allows: a row has children only if a rule with children "
     "matches it, or it is the foreign row ('stp mode mstp' is never a block); part tree has no such restriction",
-    "gen.py's three completion lines are replicated (merge_dicts(t, implicit.config(t, rules))), gen.old_new is not executed",
+    "parts tree/ordered/pair replicate gen.py's three completion lines (merge_dicts(t, implicit.config(t, rules))); part gen "
+    "executes annet.gen._old_new_per_device itself with a stub context (no storage, no fetcher: config='running' with the text "
+    "in ctx.running; generators are PartialGenerator subclasses that yield a forest) and catch-all ACLs, so that ACL filtering "
+    "is the identity and what is compared is the completion of old, new and safe_new; for an empty device text annet starts "
+    "from the vendor's initial configuration, which is taken from annet (generators.run_partial_initial) as data",
 ]
 BUDGET = {"quick": 150, "thorough": 1200}   # measured: ~300 / ~4000 core-seconds (20 s / 4-8 min on 16 cores)
 
@@ -129,16 +136,19 @@ def reps():
 def tier_bounds(tier):
     # N: nodes for representatives (sorted siblings); NM: for further group members; NO: all sibling orders; pairs: (K_t, K_u)
     if tier == "quick":
-        return {"N": 5, "NM": 3, "NO": 3, "pair_rep": [(2, 2)], "pair_member": []}
-    return {"N": 6, "NM": 4, "NO": 4, "pair_rep": [(2, 2), (3, 2), (2, 3)], "pair_member": [(2, 2)]}
+        return {"N": 5, "NM": 3, "NO": 3, "pair_rep": [(2, 2)], "pair_member": [], "gen_rep": (1, 2, 1), "gen_member": (1, 1, 1)}
+    return {"N": 6, "NM": 4, "NO": 4, "pair_rep": [(2, 2), (3, 2), (2, 3)], "pair_member": [(2, 2)], "gen_rep": (1, 2, 2),
+            "gen_member": (1, 2, 1)}
 
 
 def bound_text(tier):
     b = tier_bounds(tier)
     return ("%d hardware classes (10 distinct rule texts); per distinct text ALL forests <= %d nodes (sibling sets), further "
             "classes of a text <= %d nodes; all sibling orders of forests <= %d nodes; pairs: representatives %s nodes "
-            "(t,u), further classes %s; complete"
-            % (len(CLASSES), b["N"], b["NM"], b["NO"], b["pair_rep"], b["pair_member"] or "none"))
+            "(t,u), further classes %s; gen: (device text, unsafe generator, safe generator) forests <= %s nodes for "
+            "representatives, <= %s for further classes, each with the empty and one non-empty device text, plus the full cross "
+            "product of forests <= 1 node; complete"
+            % (len(CLASSES), b["N"], b["NM"], b["NO"], b["pair_rep"], b["pair_member"] or "none", b["gen_rep"], b["gen_member"]))
 
 
 def setup():
@@ -265,6 +275,11 @@ def blocks(tier, seed):
             nsl = 16 if kt >= 3 else 4
             for i in range(nsl):
                 out.append({"part": "pair", "cls": name, "kt": kt, "ku": ku, "slice": i, "of": nsl})
+        kt, k1, k2 = b["gen_rep"] if name in rep else b["gen_member"]
+        nsl = 4 if name in rep else 1
+        for i in range(nsl):
+            out.append({"part": "gen", "cls": name, "kt": kt, "k1": k1, "k2": k2, "slice": i, "of": nsl, "few_t": 1})
+        out.append({"part": "gen", "cls": name, "kt": 1, "k1": 1, "k2": 1, "slice": 0, "of": 1})
     # the cheap complete core first (classes, forests <= 2 nodes), then the heavy blocks in descending size (the
     # driver hands blocks out in list order)
     def weight(bl):
@@ -272,6 +287,8 @@ def blocks(tier, seed):
             return -10 ** 6
         if bl["part"] == "pair":
             return -100 * (bl["kt"] + bl["ku"])
+        if bl["part"] == "gen":
+            return -90 * (bl["kt"] + bl["k1"] + bl["k2"])
         return -max(bl["n"]) if bl["part"] == "tree" else 0
     out.sort(key=weight)
     return out
@@ -694,6 +711,156 @@ def run_pair(block, ctx):
                 ctx.sample({"class": c["name"], "t": t_list, "u": u_list, "outcome": label})
 
 
+# ---------------------------------------------------------------------------------------------------
+# part "gen": the real _old_new_per_device
+class _Storage:
+    def flush_perf(self):
+        return {}
+
+
+class _Dev:
+    def is_pc(self):
+        return False
+
+    def __hash__(self):
+        return id(self)
+
+
+_gen_classes = {}
+CATCH_ALL = "\n        ~ %global\n    "
+
+
+def gen_device(c):
+    if "gen_dev" not in c:
+        d = _Dev()
+        d.__dict__.update(c["dev"].__dict__)
+        d.storage = _Storage()
+        d.hw = env.HwVendorCached(d.hw)
+        c["gen_dev"] = d
+    return c["gen_dev"]
+
+
+def make_forest_gen(name, vendor, forest, safe):
+    from annet.generators import PartialGenerator
+
+    def run_nodes(self, nodes):
+        for row, ch in nodes:
+            if ch:
+                with self.block(row):
+                    yield from run_nodes(self, ch)
+            else:
+                yield row
+    kls = _gen_classes.get(name)
+    if kls is None:
+        kls = _gen_classes[name] = type(name, (PartialGenerator,), {})
+    g = kls(_Storage())
+    setattr(g, "acl_" + vendor, lambda dev: CATCH_ALL)
+    if safe:
+        setattr(g, "acl_safe_" + vendor, lambda dev: CATCH_ALL)
+    setattr(g, "run_" + vendor, lambda dev: run_nodes(g, forest))
+    return g
+
+
+def forest_text(forest, depth=0):
+    out = []
+    for row, ch in forest:
+        out.append(" " * depth + row)
+        out.extend(forest_text(ch, depth + 1))
+    return out
+
+
+def union_forest(a, b):
+    out = [[r, list(c)] for r, c in a]
+    idx = {r: i for i, (r, _) in enumerate(out)}
+    for r, c in b:
+        if r in idx:
+            out[idx[r]][1] = union_forest(out[idx[r]][1], c)
+        else:
+            idx[r] = len(out)
+            out.append([r, list(c)])
+    return out
+
+
+def as_set(forest_or_tree):
+    if isinstance(forest_or_tree, list):
+        return {r: as_set(c) for r, c in forest_or_tree}
+    return {r: as_set(c) for r, c in forest_or_tree.items()}
+
+
+def run_gen_real(c, t_list, u1, u2):
+    from annet import gen as ann_gen
+    dev = gen_device(c)
+    vendor = dev.hw.vendor
+    gens = [make_forest_gen("C17Unsafe", vendor, u1, False), make_forest_gen("C17Safe", vendor, u2, True)]
+    args = types.SimpleNamespace(no_acl=False, acl_safe=True, no_acl_exclusive=True, profile=False,
+                                 fail_on_empty_config=False, generators_context=None, filter_acl=None, filter_ifaces=None,
+                                 filter_peers=None, filter_policies=None, required_packages_check=False)
+    dg = ann_gen.DeviceGenerators(partial={dev: gens}, ref={dev: []})
+    ctx = ann_gen.OldNewDeviceContext(
+        config="running", args=args, downloaded_files={}, failed_files={}, running={dev: "\n".join(forest_text(t_list)) + "\n"},
+        failed_running={}, no_new=False, stdin=None, add_annotations=False, add_implicit=True, do_files_download=False,
+        gens=dg, fetched_packages={}, failed_packages={}, device_count=1, do_print_perf=False)
+    r = ann_gen._old_new_per_device(ctx, dev, None)
+    if r.err:
+        raise r.err
+    return r
+
+
+def initial_forest(c):
+    if "initial" not in c:
+        from annet import generators
+        c["initial"] = env.tree_to_list(generators.run_partial_initial(gen_device(c)).config_tree())
+    return c["initial"]
+
+
+def check_gen(c, t_list, u1, u2, v):
+    case = {"part": "gen", "cls": c["name"], "t": t_list, "u1": u1, "u2": u2}
+    try:
+        r = run_gen_real(c, t_list, u1, u2)
+    except Exception as e:  # noqa
+        v({"kind": "gen-raises", "group": c["group"], "exc": type(e).__name__}, case, "%s: %s" % (type(e).__name__, e))
+        return 0
+    if not t_list:
+        # an empty device text makes annet start from the vendor's initial configuration (generators.run_partial_initial)
+        t_list = initial_forest(c)
+    exp = {"old": R.expected_completion(c["rules_ref"], t_list),
+           "new": R.expected_completion(c["rules_ref"], union_forest(u1, u2)),
+           "safe_new": R.expected_completion(c["rules_ref"], u2),
+           "safe_old": R.expected_completion(c["rules_ref"], t_list)}
+    for what, e in exp.items():
+        got = as_set(getattr(r, what))
+        if got != as_set(e):
+            extra = R.rows_not_in(env.tree_to_list(getattr(r, what)), e)
+            missing = R.rows_not_in(e, env.tree_to_list(getattr(r, what)))
+            v({"kind": "gen-completion-differs", "tree": what, "group": c["group"],
+               "effect": "rows added" if extra and not missing else "rows missing" if missing and not extra else "both"},
+              case, "%s: annet=%r reference=%r" % (what, env.tree_to_list(getattr(r, what)), e))
+    # non-trivial: the safe tree and the full tree are completed differently (a block of one is missing in the other)
+    return int(as_set(exp["new"]) != as_set(exp["safe_new"]) and bool(u2))
+
+
+def run_gen(block, ctx):
+    c = cls(block["cls"])
+    ts = [f for f in pair_forests(c, block["kt"])]
+    if block.get("few_t"):
+        # the device text and the generators meet only in the (catch-all) ACL: the large generator forests are crossed
+        # with the empty text and one non-empty text, the full cross product is explored at the smaller bound
+        ts = ts[:2]
+    u1s = pair_forests(c, block["k1"])
+    u2s = pair_forests(c, block["k2"])
+    for u1 in u1s[block["slice"]::block["of"]]:
+        for u2 in u2s:
+            for t_list in ts:
+                if ctx.expired():
+                    return
+                nt = check_gen(c, t_list, u1, u2, ctx.violation)
+                ctx.evals += 4
+                ctx.states += 1
+                ctx.nontrivial += nt
+                ctx.outcomes["gen:" + ("safe-differs" if nt else "same-or-empty")] += 1
+                ctx.extra["gen_cases"] += 1
+
+
 def finish(merged, tier):
     """the sorted-sibling enumeration is complete: case count == independent recurrence"""
     if merged["capped"]:
@@ -711,7 +878,7 @@ def finish(merged, tier):
 
 
 def run_block(block, ctx):
-    {"classes": run_classes, "tree": run_tree, "ordered": run_ordered, "pair": run_pair}[block["part"]](block, ctx)
+    {"classes": run_classes, "tree": run_tree, "ordered": run_ordered, "pair": run_pair, "gen": run_gen}[block["part"]](block, ctx)
 
 
 def replay(case):
@@ -729,6 +896,8 @@ def replay(case):
         check_class(case["cls"], v)
     elif case["part"] == "tree":
         check_tree(cls(case["cls"]), case["t"], v)
+    elif case["part"] == "gen":
+        check_gen(cls(case["cls"]), case["t"], case["u1"], case["u2"], v)
     else:
         check_pair(cls(case["cls"]), case["t"], case["u"], v)
     return out
